@@ -267,6 +267,37 @@ pub fn direct_long(prop: &str, seed: u64, max_n: usize, types: Vec<String>, emb_
             }
         }
     }
+    // ---------------- C02 / C17 / C19: very UNBALANCED merges, both directions: a part of 1..5
+    // observations holding the extreme value of the sample against a part 10..10^4 times larger
+    // (size-ratio dependent branches of a merge; the merged mean must stay inside the data range)
+    if merged || prop == "C19" {
+        // (vs, ks, constant): the large part is either a mix of -1,0,2 or constant at an extreme of
+        // the sample (then any overshoot of the merged mean leaves the data range)
+        for &(vs, ks, constant) in &[(3i64, 1usize, None), (-3, 1, None), (3, 2, None), (-3, 3, None), (3, 5, None),
+                                     (0, 1, Some(3i64)), (2, 2, Some(3)), (0, 1, Some(-3)), (-1, 3, Some(-3)), (3, 1, Some(-3))] {
+            for &nb in &[10usize, 50, 300, 1000, 3000, 40_000] {
+                let mut data = vec![vs; ks];
+                data.extend((0..nb).map(|i| constant.unwrap_or([-1i64, 0, 2, 0, -1, 2, 2][(i * 5 + i / 11) % 7])));
+                let p = if nb <= 1000 { 6 } else { 4 };
+                let spec = SlotSpec::from_data(data, p);
+                let cx = Ctx::new(&spec);
+                let label = json!({"unbalanced_parts": [[vs, ks], [constant.map(|c| format!("constant {c}")).unwrap_or("mix of -1,0,2".into()), nb]]});
+                rep.behaviours += 1;
+                rep.nontrivial.insert(hash_str(&label.to_string()));
+                let want = Want { prop: prop.into(), types: types.clone(), embeddings: vec![] };
+                for e in embs.iter().take(3) {
+                    two_blocks::<average::Mean>(&spec, &cx, ks, e, &want, rep, &label);
+                    two_blocks::<average::Variance>(&spec, &cx, ks, e, &want, rep, &label);
+                    two_blocks::<average::Skewness>(&spec, &cx, ks, e, &want, rep, &label);
+                    two_blocks::<average::Kurtosis>(&spec, &cx, ks, e, &want, rep, &label);
+                    two_blocks::<average::Moments4>(&spec, &cx, ks, e, &want, rep, &label);
+                    if p >= 6 {
+                        two_blocks::<m6::M6>(&spec, &cx, ks, e, &want, rep, &label);
+                    }
+                }
+            }
+        }
+    }
     // ---------------- C02 / C19: two LARGE halves (both operands beyond 2^16 observations: integer
     // count polynomials of degree 4 leave the u64 range there)
     if prop == "C02" || prop == "C19" {
